@@ -4,7 +4,7 @@ from sim import history
 PROP = 'C05'
 TECHNIQUE = 'deterministic simulation: invariant monitor on every byte and name written at rest (needle search, structure, nonce freshness) over seeded histories incl. eventually consistent store'
 LEVEL = 'exploration'
-RULE = ('one case = a seeded history (init, add-key shared/independent/clone, snapshots with notes, delete, clean) on an encrypted '
+RULE = ('[users are processes per command or long-lived programs that keep one Repository object across commands] one case = a seeded history (init, add-key shared/independent/clone, snapshots with notes, delete, clean) on an encrypted '
         'repository (both ciphers, all key sizes, several nonce sizes, all hashes); a monitor records every byte uploaded, every '
         'object name, every emitted key file and the stdout of init/add-key; oracle: no canary (path component, note, password, '
         'metadata integers, 12-byte content windows), no chunk/file digest and no key secret occurs raw, hex or base64 (3 alignments) '
